@@ -317,6 +317,36 @@ theorem monotone_ubuntu_partial (p p' : Pkg) (v : Vuln) (v1 v1' : VerDeb.Version
       · simp only [hz, if_false] at h hret ⊢
         exact debLess_mono h hle hret
 
+/-! ### alpine (go-apk-version) -/
+
+/-- alpine: an advisory without fixed version is reported. -/
+theorem no_fix_alpine (p : Pkg) (v : Vuln) (hF : v.fixed = []) : vulnerableAlpine p v = .ok true := by
+  simp [vulnerableAlpine, hF]
+
+/-- alpine: secdb's fixed version `"0"` means not affected: never reported. -/
+theorem sentinel_not_reported_alpine (p : Pkg) (v : Vuln) (hF : v.fixed = ['0']) :
+    vulnerableAlpine p v = .ok false := by
+  simp [vulnerableAlpine, hF]
+
+/-- alpine: a version apk does not accept, on either side, is never reported (and is not an error). -/
+theorem invalid_not_reported_alpine (p : Pkg) (v : Vuln) (hF : v.fixed ≠ [])
+    (h : VerApk.valid p.version = false ∨ VerApk.valid v.fixed = false) :
+    vulnerableAlpine p v = .ok false := by
+  unfold vulnerableAlpine
+  simp only [hF, if_false]
+  split
+  · rfl
+  · rcases h with h | h
+    · simp [h]
+    · cases VerApk.valid p.version <;> simp [h]
+
+/-- alpine: with a fix `F` (not a sentinel) and two versions apk accepts,
+    reported iff the package is strictly below `F` in apk's comparison. -/
+theorem vulnerable_iff_lt_alpine (p : Pkg) (v : Vuln) (hF : v.fixed ≠ []) (hF0 : v.fixed ≠ ['0'])
+    (h1 : VerApk.valid p.version = true) (h2 : VerApk.valid v.fixed = true) :
+    vulnerableAlpine p v = .ok (decide (VerApk.compare p.version v.fixed = .lt)) := by
+  simp [vulnerableAlpine, hF, hF0, h1, h2]
+
 /-- The hypotheses above are satisfiable: 1.0-1 is below 1.0-2. -/
 example : vulnerableAws { version := "1.0-1".toList } { fixed := "1.0-2".toList } = .ok true := by decide
 
@@ -325,5 +355,9 @@ example : vulnerableAws { version := "1.0-2".toList } { fixed := "1.0-2".toList 
 example : vulnerableDebian { version := "1.0-1".toList } { fixed := "1.0-2".toList } = .ok true := by decide
 
 example : vulnerableUbuntu { version := "1.0-1".toList } { fixed := "0:0".toList } = .ok true := by decide
+
+example : vulnerableAlpine { version := "1.2.3-r0".toList } { fixed := "1.2.3-r1".toList } = .ok true := by decide
+
+example : vulnerableAlpine { version := "1.2.3-r1".toList } { fixed := "1.2.3_rc1-r0".toList } = .ok false := by decide
 
 end ClairModel.Props.C03
